@@ -143,10 +143,11 @@ def extract(repo=None, verbose=False):
         with open(marker, "w") as fh:
             fh.write(json.dumps({"key": key, "extract_s": round(time.time() - t0, 2),
                                  "files": have}))
-        # keep the cache small: drop all but the 6 most recent fact sets
+        # keep the cache small: drop all but the 24 most recent fact sets (several checks may run concurrently on
+        # different trees; a reader that loses its set re-extracts, see load())
         sets = sorted((d for d in glob.glob(os.path.join(cache_root, "*")) if os.path.isdir(d)),
                       key=os.path.getmtime)
-        for old in sets[:-6]:
+        for old in sets[:-24]:
             shutil.rmtree(old, ignore_errors=True)
         return cdir, key, True
     finally:
@@ -280,7 +281,13 @@ def _strip_generics(s):
 
 def load(repo=None, verbose=False):
     fdir, key, fresh = extract(repo, verbose)
-    prog = Program(fdir, key)
+    try:
+        prog = Program(fdir, key)
+    except (OSError, ValueError):
+        # the cached fact set was evicted by a concurrent run between the check and the read: extract again
+        shutil.rmtree(fdir, ignore_errors=True)
+        fdir, key, fresh = extract(repo, verbose)
+        prog = Program(fdir, key)
     prog.fresh = fresh
     return prog
 
